@@ -16,7 +16,7 @@
 (*   depends, args, bench, script, ...]).  References are 1-based indices  *)
 (*   of earlier targets.                                                   *)
 (***************************************************************************)
-EXTENDS BuildGraph, SequencesExt
+EXTENDS BuildGraph, SequencesExt, TLC
 
 Join(a, b) == IF a = "" THEN b ELSE IF b = "" THEN a ELSE a \o "/" \o b
 SpDir(sp) == IF sp = "" THEN "" ELSE "subprojects/" \o sp
@@ -108,18 +108,37 @@ E(rule, ins, imp, ord, outs) == [rule |-> rule, ins |-> ins, imp |-> imp, ord |-
 Base(path) == LET idx == {k \in 1..Len(path) : SubSeq(path, k, k) = "/"} IN
               IF idx = {} THEN path ELSE SubSeq(path, (CHOOSE k \in idx : \A m \in idx : m <= k) + 1, Len(path))
 
+(* unity builds (Unity-builds.md, Builtin-options.md unity / unity_size): the C sources of a target are merged,
+   in order, into unity files of `unity_size` sources each - ceil(n / unity_size) files - and only those are
+   compiled; a consumer of the target's objects (extract_all_objects(), the static half of a both-library)
+   links exactly the objects of those unity files.  `unity=subprojects` applies to subproject targets only. *)
+IsUnity(p, t) == IsBuild(t) /\ (p.unity = "on" \/ (p.unity = "subprojects" /\ t.sp # ""))
+CSources(p, t) == {Src(t, s) : s \in Rng(t.srcs)} \cup GenC(p, t) \cup GenListC(p, t)
+UnityChunks(n, size) == (n + size - 1) \div size
+NUnity(p, t) == UnityChunks(Cardinality(CSources(p, t)), p.unity_size)
+UnitySrc(p, t, k) == Join(Priv(p, t), t.name \o "-unity" \o ToString(k) \o ".c")
+UnitySrcs(p, t) == {UnitySrc(p, t, k) : k \in 0..(NUnity(p, t) - 1)}
+GeneratorEdges(p, t) ==
+    {E("CUSTOM_COMMAND", <<Src(t, g)>>, <<"@tool">>, <<>>, <<Join(Priv(p, t), DropSuffix(g, 3) \o ".c")>>)
+            : g \in Rng(t.genlist)}
 CompileEdges(p, t) ==
+    IF IsUnity(p, t)
+    THEN {E("c_COMPILER", <<u>>, <<>>, SetToSeq(GenH(p, t) \cup GenC(p, t) \cup GenListC(p, t)),
+            <<Join(Priv(p, t), "meson-generated_" \o Base(u) \o ".o")>>) : u \in UnitySrcs(p, t)}
+         \cup GeneratorEdges(p, t)
+    ELSE
     {E("c_COMPILER", <<Src(t, s)>>, <<>>, SetToSeq(GenH(p, t)), <<Join(Priv(p, t), s \o ".o")>>) : s \in Rng(t.srcs)}
     \cup {E("c_COMPILER", <<c>>, <<>>, SetToSeq(GenH(p, t)), <<Join(Priv(p, t), "meson-generated_" \o Base(c) \o ".o")>>)
             : c \in GenC(p, t) \cup GenListC(p, t)}
-    \cup {E("CUSTOM_COMMAND", <<Src(t, g)>>, <<"@tool">>, <<>>, <<Join(Priv(p, t), DropSuffix(g, 3) \o ".c")>>)
-            : g \in Rng(t.genlist)}
+    \cup GeneratorEdges(p, t)
 Objects(p, t) == UNION {Rng(e.outs) : e \in {x \in CompileEdges(p, t) : x.rule = "c_COMPILER"}}
+\* objects a target links: its own and those extracted from other targets (objects: t.extract_all_objects())
+LinkObjects(p, t) == Objects(p, t) \cup UNION {Objects(p, p.targets[o]) : o \in Rng(t.objs)}
 LinkEdges(p, t) ==
     IF t.kind = "exe"
-    THEN {E("c_LINKER", SetToSeq(Objects(p, t)), SetToSeq(UNION {RefOuts(p, p.targets[l]) : l \in Rng(t.link)}), <<>>,
+    THEN {E("c_LINKER", SetToSeq(LinkObjects(p, t)), SetToSeq(UNION {RefOuts(p, p.targets[l]) : l \in Rng(t.link)}), <<>>,
             <<Join(OutDir(p, t), t.name)>>)}
-    ELSE {E(IF ty = "static" THEN "STATIC_LINKER" ELSE "c_LINKER", SetToSeq(Objects(p, t)),
+    ELSE {E(IF ty = "static" THEN "STATIC_LINKER" ELSE "c_LINKER", SetToSeq(LinkObjects(p, t)),
             SetToSeq(UNION {RefOuts(p, p.targets[l]) : l \in Rng(t.link)}), <<>>,
             <<Join(OutDir(p, t), LibFile(t.name, ty))>>) : ty \in LibTypes(p, t)}
 DepOuts(p, t) == UNION {RefOuts(p, p.targets[d]) : d \in Rng(t.deps)}
@@ -153,7 +172,33 @@ ModelGraph(p) ==
         pools |-> <<"console">>, edges |-> es, edge_pools |-> [k \in DOMAIN es |-> ""],
         defaults |-> <<"all">>, errors |-> <<>>]
 ModelExists(p) ==
-    {"@tool"} \cup UNION {{Src(p.targets[i], s) : s \in Rng(p.targets[i].srcs) \cup Rng(p.targets[i].genlist) \cup {"input"}}
+    {"@tool"} \cup UNION {IF IsUnity(p, p.targets[i]) THEN UnitySrcs(p, p.targets[i]) ELSE {} : i \in Targets(p)}
+    \cup UNION {{Src(p.targets[i], s) : s \in Rng(p.targets[i].srcs) \cup Rng(p.targets[i].genlist) \cup {"input"}}
                           : i \in Targets(p)}
+
+(* ---- unity obligations on a real manifest M ------------------------------ *)
+\* (stated for targets whose sources are plain files only; the unity file names `<private dir>/<name>-unityK.c`
+\*  are what the backend writes at configure time)
+PlainOnly(t) == t.gen = <<>> /\ t.genlist = <<>>
+StartsWith(str, pre) == Len(str) >= Len(pre) /\ SubSeq(str, 1, Len(pre)) = pre
+UnityTargets(p) == {i \in Targets(p) : IsUnity(p, p.targets[i]) /\ PlainOnly(p.targets[i]) /\ p.targets[i].srcs # <<>>}
+\* exactly ceil(n / unity_size) unity files are compiled: every one of them, and not one more
+UnityFilesWrong(p, M) ==
+    UNION {LET t == p.targets[i]
+           IN (UnitySrcs(p, t) \ AllInputs(M))
+              \cup ({UnitySrc(p, t, NUnity(p, t))} \cap AllInputs(M)) : i \in UnityTargets(p)}
+\* objects of a target as the manifest has them: outputs of the statements compiling its unity files
+UnityObjectsIn(p, M, t) == UNION {Outs(M, e) : e \in {x \in EdgeIds(M) : ExplicitIns(M, x) \cap UnitySrcs(p, t) # {}}}
+\* the statements producing the files of target c take, from the private directory of provider t, exactly
+\* the unity objects of t
+ExtractionWrong(p, M, c, t) ==
+    LET stmts == {e \in EdgeIds(M) : Outs(M, e) \cap FilePaths(p, c) # {} /\ M.edges[e].rule # "phony"}
+        taken(e) == {q \in ExplicitIns(M, e) : StartsWith(q, Priv(p, t) \o "/")}
+    IN UNION {(taken(e) \ UnityObjectsIn(p, M, t)) \cup (UnityObjectsIn(p, M, t) \ taken(e)) : e \in stmts}
+UnityExtractionWrong(p, M) ==
+    UNION {UNION {ExtractionWrong(p, M, p.targets[c], p.targets[i]) : c \in {x \in Targets(p) : i \in Rng(p.targets[x].objs)}}
+             : i \in UnityTargets(p)}
+    \* a both-library: every link statement of the target (shared and static half) takes its unity objects
+    \cup UNION {ExtractionWrong(p, M, p.targets[i], p.targets[i]) : i \in UnityTargets(p)}
 
 =============================================================================
